@@ -709,6 +709,17 @@ class PolarsSem:
             if o["has_max"]:
                 hi = args[idx]
             out = []
+
+            def to_x_type(c, b):
+                # polars casts the bounds to the dtype of the clipped expression
+                if c.ty == INT and b.ty == REAL:
+                    return Cell(INT, b.null, K.If(b.val >= 0, z3.ToInt(b.val), -z3.ToInt(-b.val)))
+                return b
+
+            if hi is not None:
+                hi = [to_x_type(x[i], hi[i]) for i in range(n)]
+            if lo is not None:
+                lo = [to_x_type(x[i], lo[i]) for i in range(n)]
             for i in range(n):
                 c = x[i]
                 if hi is not None:
@@ -791,6 +802,19 @@ class PolarsSem:
         self.constructs.add(f"str:{name}")
         x = args[0]
         L = self.str_len
+        if name == "LenBytes":
+            # UTF-8 length, unrolled over the bounded number of characters
+            out = []
+            for c in x:
+                if c.ty != STR:
+                    out.append(K.null_of(INT))
+                    continue
+                tot = z3.IntVal(0)
+                for k in range(L):
+                    code = z3.StrToCode(z3.SubString(c.val, k, 1))
+                    tot = tot + K.If(k < z3.Length(c.val), K.If(code < 0x80, 1, K.If(code < 0x800, 2, K.If(code < 0x10000, 3, 4))), 0)
+                out.append(Cell(INT, c.null, tot))
+            return out
         if name == "LenChars":
             return [Cell(INT, c.null, z3.Length(c.val)) if c.ty == STR else K.null_of(INT) for c in x]
         if name in ("StartsWith", "EndsWith"):
